@@ -20,7 +20,6 @@ import (
 	"fmt"
 	"go/types"
 	"strings"
-
 )
 
 type branchDriver struct {
@@ -391,68 +390,71 @@ func (r *rwRT) ruleSig() {
 		{"two results", true, 2, false},
 		{"one result of the iterator type", true, 1, true},
 	} {
-		tc := tc
-		d := r.newApplyDriver(fn, []AV{Sym{Name: "r", NN: true}, Sym{Name: "pkg", NN: true}, Sym{Name: "f", NN: true}},
-			rwConfig{root: fn, boundaries: map[string]bool{"collectYieldFunc": false}},
-			map[string]AV{"r.yieldFunc": yieldObj, "r.yieldFromFunc": Sym{Name: "obj:YieldFrom", NN: true, Uniq: true}},
-			func(cc *CallCtx) []Answer {
-				if cc.Fn == nil {
+		for _, fkind := range []string{"FuncDecl", "FuncLit"} { // a generator may be a declaration or a function literal
+			tc := tc
+			tc.name = tc.name + map[string]string{"FuncDecl": "", "FuncLit": " (function literal)"}[fkind]
+			d := r.newApplyDriver(fn, []AV{Sym{Name: "r", NN: true}, Sym{Name: "pkg", NN: true}, Sym{Name: "f", NN: true}},
+				rwConfig{root: fn, boundaries: map[string]bool{"collectYieldFunc": false}},
+				map[string]AV{"r.yieldFunc": yieldObj, "r.yieldFromFunc": Sym{Name: "obj:YieldFrom", NN: true, Uniq: true}},
+				func(cc *CallCtx) []Answer {
+					if cc.Fn == nil {
+						return nil
+					}
+					switch cc.Fn.Name() {
+					case "Callee":
+						return []Answer{{Ret: []AV{yieldObj}, NoEvent: true}}
+					case "isIterator":
+						return []Answer{{Ret: []AV{mkBool(tc.isIter)}, NoEvent: true}}
+					case "Len":
+						if strings.Contains(fnPkgPath(cc.Fn), "go/types") {
+							return []Answer{{Ret: []AV{mkInt(tc.nResults)}, NoEvent: true}}
+						}
+					case "TypeOf":
+						tp := r.w.importedPkg(pathRw, "go/types")
+						if tp != nil {
+							return []Answer{{Ret: []AV{Dyn{T: types.NewPointer(tp.Scope().Lookup("Signature").Type()), V: Sym{Name: "sig", NN: true}}}, NoEvent: true}}
+						}
+					}
 					return nil
+				})
+			F := r.node(fkind, "F")
+			call := r.node("CallExpr", "call")
+			marked, completed := false, false
+			sts := []*State{d.base}
+			for _, stp := range []struct {
+				cb   string
+				node AV
+			}{{"pre", F}, {"pre", call}, {"post", call}, {"post", F}} {
+				cb := d.pre
+				if stp.cb == "post" {
+					cb = d.pst
 				}
-				switch cc.Fn.Name() {
-				case "Callee":
-					return []Answer{{Ret: []AV{yieldObj}, NoEvent: true}}
-				case "isIterator":
-					return []Answer{{Ret: []AV{mkBool(tc.isIter)}, NoEvent: true}}
-				case "Len":
-					if strings.Contains(fnPkgPath(cc.Fn), "go/types") {
-						return []Answer{{Ret: []AV{mkInt(tc.nResults)}, NoEvent: true}}
-					}
-				case "TypeOf":
-					tp := r.w.importedPkg(pathRw, "go/types")
-					if tp != nil {
-						return []Answer{{Ret: []AV{Dyn{T: types.NewPointer(tp.Scope().Lookup("Signature").Type()), V: Sym{Name: "sig", NN: true}}}, NoEvent: true}}
+				var next []*State
+				for _, st := range sts {
+					for _, o := range d.step(st, cb, stp.node) {
+						if !o.Panicked {
+							next = append(next, o.St)
+						}
 					}
 				}
-				return nil
-			})
-		F := r.node("FuncDecl", "F")
-		call := r.node("CallExpr", "call")
-		marked, completed := false, false
-		sts := []*State{d.base}
-		for _, stp := range []struct {
-			cb   string
-			node AV
-		}{{"pre", F}, {"pre", call}, {"post", call}, {"post", F}} {
-			cb := d.pre
-			if stp.cb == "post" {
-				cb = d.pst
+				sts = next
 			}
-			var next []*State
 			for _, st := range sts {
-				for _, o := range d.step(st, cb, stp.node) {
-					if !o.Panicked {
-						next = append(next, o.St)
+				completed = true
+				for _, e := range st.Events[len(d.base.Events):] {
+					if e.Kind == "mapupdate" || (e.Kind == "store" && strings.HasPrefix(e.Target, "r.")) {
+						marked = true
 					}
 				}
 			}
-			sts = next
-		}
-		for _, st := range sts {
-			completed = true
-			for _, e := range st.Events[len(d.base.Events):] {
-				if e.Kind == "mapupdate" || (e.Kind == "store" && strings.HasPrefix(e.Target, "r.")) {
-					marked = true
-				}
+			r.account(d.in)
+			if tc.wantMark {
+				c.check(completed && marked, "RW.SIG", tc.name, pos, "the function is recorded as a generator", "a function with a proper generator signature is not recorded")
+			} else {
+				c.check(!marked, "RW.SIG", tc.name, pos,
+					"rejected: the function is never recorded as a generator (every path ends in the diagnostic)",
+					"a function containing a Yield is recorded as generator although its signature is wrong ("+tc.name+"): it would be rewritten instead of rejected")
 			}
-		}
-		r.account(d.in)
-		if tc.wantMark {
-			c.check(completed && marked, "RW.SIG", tc.name, pos, "the function is recorded as a generator", "a function with a proper generator signature is not recorded")
-		} else {
-			c.check(!marked, "RW.SIG", tc.name, pos,
-				"rejected: the function is never recorded as a generator (every path ends in the diagnostic)",
-				"a function containing a Yield is recorded as generator although its signature is wrong ("+tc.name+"): it would be rewritten instead of rejected")
 		}
 	}
 }
